@@ -41,3 +41,6 @@ add("C14", "exploration", "token-echo monitor over a PRNG reordering network bet
 add("C17", "exploration", "written-vs-read sequence comparison through byte-chunking transports under every codec; concurrent-writer integrity check",
     "Message sequences through IOCodec, HTTP, gorilla and gobwas codecs with the byte stream delivered as 1-byte reads, small/random pieces, fully coalesced or with pauses (chunking conn installed below the WebSocket layer); concurrent writers on TCP and gorilla.",
     "Chunking is injected on the reader side of loopback TCP / in-memory streams; write-side segmentation is whatever the kernel does.")
+add("C10", "exploration", "Go race detector (pure-Go math/big build) over concurrent workloads in a child process; porcupine linearizability per key; acknowledged-charge accounting; deep-hash snapshot monitor",
+    "Race reports de-duplicated by innermost repository frames; store histories checked with porcupine against counter/high-water/register models; pool rounds over Local, Remote, TCP and HTTP with per-host credit = sum of acknowledged charges; snapshots re-hashed after later writes.",
+    "Interleavings are those the scheduler and injected sleeps produced (overlapping same-key pairs are counted). The race detector sees only executed paths.")
